@@ -536,18 +536,31 @@ func commentRules(r *Run, m *idlModel, rule string) {
 		self := o.selfLoopSet()
 		if !self.empty() {
 			body = o
-			stop := o.Pushed
-			want := setOf(-1, '\n')
-			r.Ob(rule, shortName(f), "the comment text ends exactly at a newline or at end of input (neither is consumed by the body loop)", s.Pos(), stop.equal(want) && o.Consumed.subset(self),
-				"the comment body loop stops at "+stop.String()+", expected "+want.String()+" - a comment would end early (text after it is parsed as tokens) or swallow the line terminator")
+			// the body continues exactly on the bytes that are neither a newline nor end of input; whether the
+			// terminator is pushed back or consumed on leaving the loop does not matter
+			var want byteSet
+			for c := 0; c <= 255; c++ {
+				if c != '\n' {
+					want.add(c)
+				}
+			}
+			var stop byteSet
+			for c := -1; c <= 255; c++ {
+				if !self.has(c) {
+					stop.add(c)
+				}
+			}
+			r.Ob(rule, shortName(f), "the comment text ends exactly at a newline or at end of input", s.Pos(), self.equal(&want),
+				"the comment body loop stops at "+stop.String()+", expected {EOF \\n} - a comment would end early (text after it is parsed as tokens) or run past its line")
 			continue
 		}
 		last := i == len(region)-1
-		if last {
-			// the terminator swallow: may consume only '\n'
+		if body != nil {
+			// after the comment text: only its line terminator may be consumed
+			_ = last
 			r.Ob(rule, shortName(f), "after the comment text only its line terminator is consumed", s.Pos(), o.Consumed.subset(setOf('\n')),
 				"after the comment the skipper consumes "+o.Consumed.String()+" without inspecting it as layout")
-		} else if body == nil {
+		} else {
 			// between the introducer and the body: must not consume a line terminator or EOF
 			bad := o.Consumed.has('\n') || o.Consumed.has(-1)
 			r.Ob(rule, shortName(f), fmt.Sprintf("between '#' and the comment text (read #%d) no line terminator is consumed", a.ord(s)), s.Pos(), !bad,
